@@ -228,3 +228,117 @@ pub fn names_fmt(s: &Sol) -> String {
         other => crate::exec::fmt_sol(other),
     }
 }
+
+// ------------------------------------------------------------------ C28: structural well-formedness of answers
+
+use chalk_ir::visit::{TypeVisitable, TypeVisitor};
+use std::ops::ControlFlow;
+
+struct WfVisitor {
+    n_binders: usize,
+    universes: usize,
+    problems: Vec<String>,
+    kinds: Vec<u8>, // 0 ty, 1 lifetime, 2 const — of the answer's own binders
+    used: Vec<usize>,
+}
+
+impl TypeVisitor<ChalkIr> for WfVisitor {
+    type BreakTy = ();
+    fn as_dyn(&mut self) -> &mut dyn TypeVisitor<ChalkIr, BreakTy = ()> {
+        self
+    }
+    fn visit_free_var(&mut self, bv: BoundVar, outer_binder: DebruijnIndex) -> ControlFlow<()> {
+        match bv.shifted_out_to(outer_binder) {
+            Some(f) => {
+                if f.debruijn != DebruijnIndex::INNERMOST {
+                    self.problems.push(format!("variable {:?} escapes the solution's own binders", bv));
+                } else if f.index >= self.n_binders {
+                    self.problems.push(format!("variable ^0.{} but the solution binds only {} variables", f.index, self.n_binders));
+                } else if !self.used.contains(&f.index) {
+                    self.used.push(f.index);
+                }
+            }
+            None => {}
+        }
+        ControlFlow::Continue(())
+    }
+    fn visit_free_placeholder(&mut self, p: PlaceholderIndex, _o: DebruijnIndex) -> ControlFlow<()> {
+        if p.ui.counter >= self.universes {
+            self.problems.push(format!("placeholder {:?} lives in a universe the query cannot name (query has {})", p, self.universes));
+        }
+        ControlFlow::Continue(())
+    }
+    fn visit_inference_var(&mut self, v: InferenceVar, _o: DebruijnIndex) -> ControlFlow<()> {
+        self.problems.push(format!("inference variable {:?} leaked into the solution", v));
+        ControlFlow::Continue(())
+    }
+    fn interner(&self) -> ChalkIr {
+        ChalkIr
+    }
+}
+
+fn kind_code(k: &VariableKind<ChalkIr>) -> u8 {
+    match k {
+        VariableKind::Ty(_) => 0,
+        VariableKind::Lifetime => 1,
+        VariableKind::Const(_) => 2,
+    }
+}
+
+/// Check one substitution (with its binders) against the query it answers.
+pub fn wellformed_subst(g: &crate::exec::G, binders: &CanonicalVarKinds<ChalkIr>, subst: &Substitution<ChalkIr>, constraints: Option<&Constraints<ChalkIr>>) -> Vec<String> {
+    let mut problems = vec![];
+    let qb = &g.canonical.binders;
+    if subst.len(ChalkIr) != qb.len(ChalkIr) {
+        problems.push(format!("substitution has {} entries, the query has {} unknowns", subst.len(ChalkIr), qb.len(ChalkIr)));
+        return problems;
+    }
+    for (i, (k, a)) in qb.iter(ChalkIr).zip(subst.iter(ChalkIr)).enumerate() {
+        let want = kind_code(&k.kind);
+        let got = match a.data(ChalkIr) {
+            GenericArgData::Ty(_) => 0,
+            GenericArgData::Lifetime(_) => 1,
+            GenericArgData::Const(_) => 2,
+        };
+        if want != got {
+            problems.push(format!("entry {} has kind {} but the query's unknown has kind {}", i, got, want));
+        }
+    }
+    let mut v = WfVisitor { n_binders: binders.len(ChalkIr), universes: g.universes, problems: vec![], kinds: binders.iter(ChalkIr).map(|b| kind_code(&b.kind)).collect(), used: vec![] };
+    let _ = subst.visit_with(&mut v, DebruijnIndex::INNERMOST);
+    // binders that the substitution actually uses must live in universes the query can name
+    let used = std::mem::take(&mut v.used);
+    for (i, b) in binders.iter(ChalkIr).enumerate() {
+        if used.contains(&i) && b.skip_kind().counter >= g.universes {
+            problems.push(format!("solution variable ^0.{} (used by the substitution) is in universe {} but the query has only {}", i, b.skip_kind().counter, g.universes));
+        }
+    }
+    if let Some(c) = constraints {
+        // region constraints may name placeholders of universes opened while solving (higher-ranked
+        // types); the property bounds the universes of the *substitution* only
+        v.universes = usize::MAX;
+        let _ = c.visit_with(&mut v, DebruijnIndex::INNERMOST);
+    }
+    let _ = &v.kinds;
+    problems.extend(v.problems);
+    if problems.is_empty() {
+        // applying the substitution to the query must not fail
+        let q = g.canonical.value.clone();
+        let s = subst.clone();
+        let r = std::panic::catch_unwind(std::panic::AssertUnwindSafe(move || {
+            let _ = s.apply(q, ChalkIr);
+        }));
+        if let Err(e) = r {
+            problems.push(format!("applying the substitution to the query panicked: {}", crate::exec::panic_msg(&e)));
+        }
+    }
+    problems
+}
+
+pub fn wellformed_solution(g: &crate::exec::G, s: &Solution<ChalkIr>) -> Vec<String> {
+    match s {
+        Solution::Unique(c) => wellformed_subst(g, &c.binders, &c.value.subst, Some(&c.value.constraints)),
+        Solution::Ambig(Guidance::Definite(c)) | Solution::Ambig(Guidance::Suggested(c)) => wellformed_subst(g, &c.binders, &c.value, None),
+        Solution::Ambig(Guidance::Unknown) => vec![],
+    }
+}
